@@ -7,6 +7,9 @@ conversion of `for … in … do` loops (`forIn`) into `List.foldlM`.
 -/
 namespace Sia.Ledger
 
+/-- `omega` does not look through the abbreviation `Cur`; unfold it first -/
+macro "cur_omega" : tactic => `(tactic| ((try unfold Cur at *); omega))
+
 theorem bind_eq_ok {α β : Type} {x : VM α} {f : α → VM β} {b : β} :
     (x >>= f) = .ok b ↔ ∃ a, x = .ok a ∧ f a = .ok b := by
   cases x with
